@@ -1519,7 +1519,7 @@ def check_rflow(ctx, prog):
         pl = o.get("copy") or o.get("move")
         return [pl["l"]] if pl is not None else []
 
-    REG = re.compile(r"^&mut dfa::DFA<|^&mut std::collections::HashMap<std::collections::BTreeSet")
+    REG = re.compile(r"^&mut dfa::DFA<|^&mut std::collections::(HashMap|BTreeMap)<std::collections::BTreeSet")
     for bi, bb in enumerate(blocks):
         if bb["cleanup"]:
             continue
@@ -1641,7 +1641,7 @@ def check_rorder(ctx, prog):
     # work list elements and state_map keys are BTreeSets
     tys = b["mir"]["locals"]
     ctx.ob("R-ORDER", "DFA states are keyed by ordered sets of NFA states",
-           any(t.startswith("std::collections::HashMap<std::collections::BTreeSet<nfa::StateIdx>") for t in tys),
+           any(re.match(r"std::collections::(HashMap|BTreeMap)<std::collections::BTreeSet<nfa::StateIdx>", t) for t in tys),
            key="R-ORDER:keys", where=b["span"])
     # (that a rule's accepting state is a fresh state of its own add_regex call - hence numbered in
     # rule order - is R-THOMPSON's add_regex obligation)
